@@ -889,6 +889,9 @@ class Banana(protocol.Protocol):
                     obj = self.buffer.popleft(strlen)
                     # handleError must drop the connection
                     self.handleError(obj)
+                    # and whatever follows the ERROR token is ignored, no
+                    # matter whether it arrived in the same packet or not
+                    self.connectionAbandoned = True
                     return
                 else:
                     self.buffer.appendleft(first65[:pos+1])
